@@ -25,6 +25,9 @@ def run(chk, tier):
         cr.check_from_registry(chk, prog, cfg, rule="R5.6")
         # the runtime builder is the other source of ids: a re-registered type gets its existing id
         cr.check_builder_ops(chk, prog, cfg, rule="R12.2")
+        from . import c12
+        c12.check_eq_ord(chk, prog, cfg)
+        cr.check_debug_asserts(chk, rule="R5.7")
         n = ci.check_identities(chk, prog, cfg)
         chk.count("alias_impls[%s]" % cfg, n)
     n = len({i["construct"] for i in chk.instances if i["rule"] == "R5.3" and i["construct"].startswith("alias:")})
